@@ -190,14 +190,15 @@ func (g *Gen) Scalar(fd protoreflect.FieldDescriptor) protoreflect.Value {
 func (g *Gen) UnknownRecord(md protoreflect.MessageDescriptor, depth int) []byte {
 	var num protowire.Number
 	for {
-		cands := []int32{g.R.Int31n(40) + 1, 15, 16, 2047, 2048, 262143, 262144, 33554431, 33554432, 536870911, 1000 + g.R.Int31n(100000)}
+		// (19000..19999 cannot be DECLARED in a .proto file but are ordinary numbers on the wire)
+		cands := []int32{g.R.Int31n(40) + 1, 15, 16, 2047, 2048, 262143, 262144, 33554431, 33554432, 536870911, 1000 + g.R.Int31n(100000), 19000, 19999, 19000 + g.R.Int31n(1000)}
 		// also numbers adjacent to declared ones
 		if md.Fields().Len() > 0 {
 			fd := md.Fields().Get(g.R.Intn(md.Fields().Len()))
 			cands = append(cands, int32(fd.Number())+1, int32(fd.Number())-1)
 		}
 		n := cands[g.R.Intn(len(cands))]
-		if n < 1 || n > 536870911 || (n >= 19000 && n <= 19999) {
+		if n < 1 || n > 536870911 {
 			continue
 		}
 		if md.Fields().ByNumber(protoreflect.FieldNumber(n)) == nil {
@@ -321,6 +322,9 @@ func (g *Gen) Fill(m protoreflect.Message, depth int) {
 		case fd.IsMap():
 			mp := m.Mutable(fd).Map()
 			nn := g.R.Intn(g.MaxLen + 1)
+			if g.R.Intn(5) == 0 {
+				nn = 1 // exactly one entry, often
+			}
 			if force && nn == 0 {
 				nn = 2
 			}
